@@ -405,10 +405,61 @@ func drawC14(t *rapid.T) any {
 	return c
 }
 
+// enumC14: the shape-mismatch matrix — every scalar event kind (and the wrong
+// container kind) delivered where a container-typed value is expected, for five
+// element types in five positions. The reference model decides which of them
+// are mismatches (null is not).
+func enumC14(emit func(c any) bool) {
+	sInt := gomodel.TypeDesc{Kind: "struct", Fields: []gomodel.FieldDesc{{Name: "A", Type: gomodel.TypeDesc{Kind: "int"}}}}
+	elems := []gomodel.TypeDesc{
+		sInt,
+		{Kind: "slice", Elem: &gomodel.TypeDesc{Kind: "int"}},
+		{Kind: "map", Elem: &gomodel.TypeDesc{Kind: "int"}},
+		{Kind: "ptr", Elem: &sInt},
+		{Kind: "slice", Elem: &sInt},
+		{Kind: "map", Elem: &sInt},
+	}
+	var wrong []([]model.Ev)
+	for _, k := range plainKinds {
+		e := model.Ev{K: k, I: 1, U: 1, F: 0x3ff0000000000000, B: true, S: []byte("s")}
+		if k == model.KF32 {
+			e.F = 0x3f800000
+		}
+		wrong = append(wrong, []model.Ev{e})
+	}
+	wrong = append(wrong,
+		[]model.Ev{{K: model.KArrStart, L: -1}, {K: model.KStr, S: []byte("x")}, {K: model.KArrEnd}},
+		[]model.Ev{{K: model.KObjStart, L: 1}, {K: model.KKey, S: []byte("a")}, {K: model.KStr, S: []byte("x")}, {K: model.KObjEnd}},
+		[]model.Ev{{K: model.KArrStart, L: 1}, {K: model.KObjStart, L: -1}, {K: model.KObjEnd}, {K: model.KArrEnd}},
+	)
+	for i := range elems {
+		e := elems[i]
+		for _, w := range wrong {
+			shapes := []struct {
+				td  gomodel.TypeDesc
+				evs []model.Ev
+			}{
+				{e, w},
+				{gomodel.TypeDesc{Kind: "map", Elem: &e}, append(append([]model.Ev{{K: model.KObjStart, L: -1}, {K: model.KKey, S: []byte("k")}}, w...), model.Ev{K: model.KObjEnd})},
+				{gomodel.TypeDesc{Kind: "slice", Elem: &e}, append(append([]model.Ev{{K: model.KArrStart, L: -1}}, w...), model.Ev{K: model.KArrEnd})},
+				{gomodel.TypeDesc{Kind: "struct", Fields: []gomodel.FieldDesc{{Name: "B", Type: gomodel.TypeDesc{Kind: "string"}}, {Name: "F", Type: e}}},
+					append(append([]model.Ev{{K: model.KObjStart, L: -1}, {K: model.KKey, S: []byte("f")}}, w...), model.Ev{K: model.KKey, S: []byte("b")}, model.Ev{K: model.KStr, S: []byte("after")}, model.Ev{K: model.KObjEnd})},
+				{gomodel.TypeDesc{Kind: "ptr", Elem: &e}, w},
+			}
+			for j := range shapes {
+				if !emit(&C14Case{Type: shapes[j].td, Evs: shapes[j].evs, Abandon: -1, Kind: "mismatch_matrix"}) {
+					return
+				}
+			}
+		}
+	}
+}
+
 func init() {
 	register(&Property{
 		ID:            "C14",
-		Rule:          "(stream, target type) pairs: (i) drawn independently (mostly mismatching), (ii) a matching perturbed stream (C13 renderer) with one subtree replaced by another random value at a drawn position and depth (scalar<->array<->object, key where none is expected, wrong element kinds, typed containers), (iii) matching streams whose container start announces 2^16..2^63-1 elements that are not delivered; 1 in 4 targets already hold a generated value (non-nil slices with spare capacity, maps with entries, allocated pointers; safety oracles only); optionally abandoned after a drawn event index; then Reset + SetTarget(new variable of the same type) + a matching perturbed document of a second value (members omitted), then Reset + SetTarget + a fixed probe document of a fixed type. Oracle: no panic; TotalAlloc <= 256KiB + 512 B/event + 8 B/string byte; the target sits between sentinel words that must stay intact; a success must equal the reference assignment model on the same stream (compared when every number fits); after each Reset+SetTarget the result, outcome and stack depths equal a new unfolder's on the same document. non-trivial = an error at depth >= 1 or abandonment inside a nested container; distinct by case hash. The thorough tier repeats the search with the -race build (checkptr)",
+		Enum:          enumC14,
+		Rule:          "(stream, target type) pairs: (i) drawn independently (mostly mismatching), (ii) a matching perturbed stream (C13 renderer) with one subtree replaced by another random value at a drawn position and depth (scalar<->array<->object, key where none is expected, wrong element kinds, typed containers), (iii) matching streams whose container start announces 2^16..2^63-1 elements that are not delivered; 1 in 4 targets already hold a generated value (non-nil slices with spare capacity, maps with entries, allocated pointers; safety oracles only); optionally abandoned after a drawn event index; then Reset + SetTarget(new variable of the same type) + a matching perturbed document of a second value (members omitted), then Reset + SetTarget + a fixed probe document of a fixed type. Deterministic part: every scalar event kind and the wrong container kind where a struct, slice, map, pointer-to-struct, slice-of-struct or map-of-struct is expected, as target, map value, slice element, struct field and pointer target. Oracle: no panic; TotalAlloc <= 256KiB + 512 B/event + 8 B/string byte; the target sits between sentinel words that must stay intact; a success must equal the reference assignment model on the same stream (compared when every number fits); after each Reset+SetTarget the result, outcome and stack depths equal a new unfolder's on the same document. non-trivial = an error at depth >= 1 or abandonment inside a nested container; distinct by case hash. The thorough tier repeats the search with the -race build (checkptr)",
 		New:           func() any { return &C14Case{} },
 		Draw:          drawC14,
 		Check:         checkC14,
